@@ -20,7 +20,7 @@ from ..core import Ctx
 from ..envs import EnvA
 from ..model import AnalysisError
 
-FLOOR = 23
+FLOOR = 29
 EXPLANATION = (
     "Static def-use analysis of TSPkoptEnv / PDPRuinRepairEnv _reset and _step (get_costs and _local_operator inlined): "
     "clone discipline of best-so-far state, where/strict-comparison algebra of the best cost, reward as its decrease, "
